@@ -11,12 +11,7 @@ Import ListNotations.
    up to a global phase w^p *)
 Theorem C20_toffoli_ok :
   exists U, circuit 3 gen_toffoli = Some U /\ phase_eq U gTOFFOLI.
-Proof.
-  destruct (circuit 3 gen_toffoli) as [U|] eqn:E; [|vm_compute in E; discriminate].
-  exists U. split; [reflexivity|]. apply phase_eqb_sound.
-  assert (H : opt_phase_eqb (circuit 3 gen_toffoli) gTOFFOLI = true) by (vm_compute; reflexivity).
-  rewrite E in H. exact H.
-Qed.
+Proof. apply opt_phase_eqb_sound. vm_compute. reflexivity. Qed.
 
 (* t_inverse is exactly the adjoint of T (no phase): T^7 = T^dagger = diag(1, e^{-i pi/4}) *)
 Theorem C20_t_inverse_ok :
